@@ -96,6 +96,7 @@ class JsonWebSignature:
 
         protected = _extract_header(protected_segment)
         jws_header = JWSHeader(protected, None)
+        self._validate_crit_headers(protected)
 
         payload = _extract_payload(payload_segment)
         if decode:
@@ -276,6 +277,23 @@ class JsonWebSignature:
                 if k not in names:
                     raise InvalidHeaderParameterNameError(k)
 
+    def _validate_crit_headers(self, protected):
+        # RFC 7515 section 4.1.11: a recipient MUST reject a JWS that lists an
+        # extension it does not understand (or that is missing) under "crit".
+        if "crit" not in protected:
+            return
+        crit = protected["crit"]
+        if not isinstance(crit, list) or not crit:
+            raise InvalidHeaderParameterNameError("crit")
+        understood = set(self._private_headers or ())
+        for name in crit:
+            if (
+                not isinstance(name, str)
+                or name not in understood
+                or name not in protected
+            ):
+                raise InvalidHeaderParameterNameError(str(name))
+
     def _validate_json_jws(self, payload_segment, payload, header_obj, key):
         protected_segment = header_obj.get("protected")
         if not protected_segment:
@@ -292,6 +310,7 @@ class JsonWebSignature:
             raise DecodeError('Invalid "header" value')
 
         jws_header = JWSHeader(protected, header)
+        self._validate_crit_headers(protected)
         algorithm, key = self._prepare_algorithm_key(jws_header, payload, key)
         signing_input = b".".join([protected_segment, payload_segment])
         signature = _extract_signature(to_bytes(signature_segment))
